@@ -85,6 +85,14 @@ func c07Spec() *histSpec {
 			if len(fresh) > 1 {
 				add(fmt.Sprintf("令%s、%s = %s", fresh[0], fresh[1], y), fresh[:2], c07Decl(fresh[:2], c07V(y)))
 			}
+			// constants hold copies too: a constant only protects the name, not what it holds
+			if len(fresh) > 0 {
+				add(fmt.Sprintf("令%s恒为%s", fresh[0], y), fresh[:1], []zn.Stmt{zn.Decl{Pairs: []zn.DeclPair{{Names: fresh[:1], Const: true, Val: c07V(y)}}}})
+				add(fmt.Sprintf("令%s恒为%s#1", fresh[0], y), fresh[:1], []zn.Stmt{zn.Decl{Pairs: []zn.DeclPair{{Names: fresh[:1], Const: true, Val: c07Idx(c07V(y), one)}}}})
+			}
+			if len(fresh) > 1 {
+				add(fmt.Sprintf("令%s、%s恒为%s", fresh[0], fresh[1], y), fresh[:2], []zn.Stmt{zn.Decl{Pairs: []zn.DeclPair{{Names: fresh[:2], Const: true, Val: c07V(y)}}}})
+			}
 		}
 		for _, y := range declared {
 			// literals that contain a variable: the literal is fresh, what it holds must be copied too
@@ -181,10 +189,16 @@ func c07Literals(c *mc.Ctx, sp *histSpec) {
 		func(x zn.Expr) zn.Stmt { return zn.ExprStmt{E: c07M(c07Idx(x, one), "后增", zn.Num{Lit: "9"})} },
 		func(x zn.Expr) zn.Stmt { return zn.ExprStmt{E: zn.Assign{Target: c07Idx(x, one), Val: zn.Num{Lit: "9"}}} },
 	}
+	// a number literal: numbers are changed in place by 自增
+	lits = append(lits, zn.Num{Lit: "0"}, zn.List{Items: []zn.Expr{zn.Num{Lit: "0"}}})
+	muts = append(muts,
+		func(x zn.Expr) zn.Stmt { return zn.ExprStmt{E: c07M(x, "自增", zn.Num{Lit: "5"})} },
+		func(x zn.Expr) zn.Stmt { return zn.ExprStmt{E: c07M(c07Idx(x, one), "自增", zn.Num{Lit: "5"})} },
+	)
 	idx := int64(1 << 50)
 	for li, lit := range lits {
 		for mi, mut := range muts {
-			for ctx := 0; ctx < 3; ctx++ {
+			for ctx := 0; ctx < 9; ctx++ {
 				idx++
 				if !c.Mine(idx) {
 					continue
@@ -202,11 +216,45 @@ func c07Literals(c *mc.Ctx, sp *histSpec) {
 							zn.ExprStmt{E: zn.Assign{Target: c07V("I"), Val: zn.Bin{Op: "+", L: c07V("I"), R: one}}},
 							zn.Decl{Pairs: []zn.DeclPair{{Names: []string{"L"}, Val: lit}}}, mut(c07V("L")), show(c07V("L"))}},
 					}
-				default: // mutate the literal's value directly through a method-call root, twice
+				case 2: // mutate the literal's value directly through a method-call root, twice
 					f := zn.Func{Name: "G", Body: []zn.Stmt{zn.Return{Val: lit}}}
 					body = []zn.Stmt{f,
 						zn.Decl{Pairs: []zn.DeclPair{{Names: []string{"X"}, Val: zn.Call{Name: "G"}}}}, mut(c07V("X")), show(c07V("X")),
 						zn.Decl{Pairs: []zn.DeclPair{{Names: []string{"Y"}, Val: zn.Call{Name: "G"}}}}, show(c07V("Y"))}
+				case 3: // the value a method returns is changed without ever being bound; the next call must not see it
+					f := zn.Func{Name: "G", Body: []zn.Stmt{zn.Return{Val: lit}}}
+					body = []zn.Stmt{f, mut(zn.Call{Name: "G"}), mut(zn.Call{Name: "G"}), show(zn.Call{Name: "G"})}
+				default:
+					// ctx 4..8: ONE literal site executed three times, each value stored WITHOUT a copy
+					// (appended, passed to a method that appends it), one stored value changed in
+					// place (after the loop / right after the first pass), all observed
+					total := c07V("总")
+					first := c07Idx(total, one)
+					var use zn.Stmt
+					var pre []zn.Stmt
+					switch ctx {
+					case 4, 5:
+						use = zn.ExprStmt{E: c07M(total, "后增", lit)}
+					case 6, 7:
+						pre = []zn.Stmt{zn.Func{Name: "存", Params: []string{"项"}, Body: []zn.Stmt{zn.ExprStmt{E: c07M(total, "后增", c07V("项"))}}}}
+						use = zn.ExprStmt{E: zn.Call{Name: "存", Args: []zn.Expr{lit}}}
+					default:
+						pre = []zn.Stmt{zn.Func{Name: "G", Body: []zn.Stmt{zn.Return{Val: lit}}}}
+						use = zn.ExprStmt{E: c07M(total, "后增", zn.Call{Name: "G"})}
+					}
+					loop := []zn.Stmt{zn.ExprStmt{E: zn.Assign{Target: c07V("I"), Val: zn.Bin{Op: "+", L: c07V("I"), R: one}}}, use}
+					var after []zn.Stmt
+					if ctx == 5 || ctx == 7 {
+						loop = append(loop, zn.If{Cond: zn.Bin{Op: "==", L: c07V("I"), R: one}, Then: []zn.Stmt{mut(first)}})
+					} else {
+						after = []zn.Stmt{mut(first)}
+					}
+					body = []zn.Stmt{zn.Decl{Pairs: []zn.DeclPair{{Names: []string{"总"}, Val: zn.List{}}}}}
+					body = append(body, pre...)
+					body = append(body, zn.Decl{Pairs: []zn.DeclPair{{Names: []string{"I"}, Val: zn.Num{Lit: "0"}}}},
+						zn.While{Cond: zn.Bin{Op: "<", L: c07V("I"), R: zn.Num{Lit: "3"}}, Body: loop})
+					body = append(body, after...)
+					body = append(body, show(total))
 				}
 				prog := &zn.Program{Body: body}
 				src := zn.Render(prog, nil)
@@ -230,7 +278,7 @@ func init() {
 	mc.Register(&mc.Check{
 		ID:    "C07",
 		Level: "model_checking",
-		Rule: "E2: breadth-first search over operation histories on names A B C starting from 4 initial values (nested list, dictionary of list, list of dictionary, object with a list property); operations: 令X = Y, 令X = 【Y，9】, X = 【Y，9】, X#“K” = 【K=Y】, 令X = Y之P, 令X = Y#1, 令X、Z = Y, X = Y, X之P = Y, X#1 = Y, X#“K” = Y, element / key / nested assignments, 后增 前增 左移 右移 移除 合并 at top and nested level, object methods and property writes; every successor is produced by re-running the whole history on a fresh real interpreter; all live names are observed structurally after every operation and compared with the reference (heap of trees, pointers only for objects); in every new state a probe battery mutates every container position reachable from every name and observes all names. States are merged on the reference state (values + object identity structure). Plus 36 literal-freshness programs.",
+		Rule: "E2: breadth-first search over operation histories on names A B C starting from 4 initial values (nested list, dictionary of list, list of dictionary, object with a list property); operations: 令X = Y, 令X恒为Y, 令X恒为Y#1, 令X、Z恒为Y, 令X = 【Y，9】, X = 【Y，9】, X#“K” = 【K=Y】, 令X = Y之P, 令X = Y#1, 令X、Z = Y, X = Y, X之P = Y, X#1 = Y, X#“K” = Y, element / key / nested assignments, 后增 前增 左移 右移 移除 合并 at top and nested level, object methods and property writes; every successor is produced by re-running the whole history on a fresh real interpreter; all live names are observed structurally after every operation and compared with the reference (heap of trees, pointers only for objects); in every new state a probe battery mutates every container position reachable from every name and observes all names. States are merged on the reference state (values + object identity structure). Plus the literal-freshness programs: 5 literals (list, dictionary, nested list, a number, a list of a number) x 6 in-place changes x 9 contexts (bound in a method called twice, bound in a loop body, returned by a method and bound, returned and changed without being bound, one literal site executed three times with every value stored WITHOUT a copy - appended / passed to a method that appends it / returned by a method and appended - and one stored value changed after the loop or right after the first pass).",
 		Assumptions: []string{
 			"list/dictionary values passed as method arguments or bound by 得到 / loop variables are by-reference today and unspecified: method arguments are fresh scalars or literals only",
 			"merging on the reference state is sound because the probe battery (mutate through each name at each position, observe all) is run in every new state before later duplicates are absorbed",
